@@ -581,6 +581,66 @@ Fixpoint ch_trace (e : env) (s : chained) (os : list op) : list (option err * ch
       end
   end.
 
+(* ---- an object's own data, as read by the invariants and by Layer 2 ---- *)
+Definition name_of (ci : cinfo) (d : data) : option name :=
+  match aget N.eqb (c_name ci) d with Some (VName n) => Some n | _ => None end.
+Definition frefs (d : data) (f : fld) : list id :=
+  match aget N.eqb f d with Some (VRefs l) => l | _ => [] end.
+
+(* ---- Layer 2 (MODEL ONLY, not tied to edb/schema/delta.py): guarded commands in the style
+   of the delta commands.  CREATE / ALTER refuse references to objects that are not in the
+   schema; DROP takes an object together with its owned subtree and is refused when anything
+   outside the dropped set still refers to a member (the guard reads the reverse index
+   _refs_to, as DeleteObject reads get_referrers); a command whose guard or underlying raw
+   operation fails leaves the schema unchanged. ---- *)
+Definition live (s : schema) (t : id) : bool := amem N.eqb t (s_type s).
+Definition refs_ok (s : schema) (self : id) (l : list id) : bool :=
+  forallb (fun t => N.eqb t self || live s t) l.
+Definition data_refs_ok (s : schema) (self : id) (ci : cinfo) (d : data) : bool :=
+  forallb (fun f => refs_ok s self (frefs d f)) (c_refs ci).
+(* get_referrers(obj): everything listed under the object in _refs_to *)
+Definition referrers (s : schema) (t : id) : list id :=
+  match aget N.eqb t (s_refs s) with None => [] | Some m => flat_map snd m end.
+
+Inductive cmd :=
+| CCreate (i : id) (c : cls) (d : data)
+| CAlter (hc : cls) (i : id) (f : fld) (v : option value)
+| CDrop (l : list (cls * id)).
+
+Inductive cerr := CGuard | COp (x : err).
+
+Definition lift (r : res schema) : sum schema cerr :=
+  match r with inl s => inl s | inr x => inr (COp x) end.
+
+Fixpoint delete_all (e : env) (s : schema) (l : list (cls * id)) : res schema :=
+  match l with
+  | [] => inl s
+  | (hc, i) :: l' => s1 <- delete e s hc i ;; delete_all e s1 l'
+  end.
+
+Definition cmd_step (e : env) (s : schema) (c : cmd) : sum schema cerr :=
+  match c with
+  | CCreate i c d =>
+      match class_info e c with
+      | inr x => inr (COp x)
+      | inl ci => if data_refs_ok s i ci d then lift (add_raw e s i c d) else inr CGuard
+      end
+  | CAlter hc i f v =>
+      match v with
+      | Some (VRefs l) => if refs_ok s i l then lift (set_field e s i f v) else inr CGuard
+      | Some _ => lift (set_field e s i f v)
+      | None => lift (unset_field e s i f)
+      end
+  | CDrop l =>
+      if forallb (fun p => forallb (fun r => smem r (map snd l)) (referrers s (snd p))) l
+      then lift (delete_all e s l) else inr CGuard
+  end.
+
+
+Definition cmd_apply (e : env) (s : schema) (c : cmd) : schema :=
+  match cmd_step e s c with inl s' => s' | inr _ => s end.
+Definition cmd_run (e : env) (s : schema) (cs : list cmd) : schema := fold_left (cmd_apply e) cs s.
+
 (* ---- order-preserving serialisation (used only to cross-check the OCaml extraction against
    vm_compute inside Coq: both must print the same numbers for the same case) ---- *)
 Definition ser_list {A : Type} (f : A -> list N) (l : list A) : list N :=
